@@ -67,13 +67,13 @@ package validator
 //@   ensures [C17:nonnil] result0 != nil
 
 //@ func processResult(result *rego.ResultSet, eventChan *chan e.Event, validationConfig c.ValidationConfiguration, reportConfig c.ReportConfiguration) (string, error)
-//@   requires result != nil && validationConfig != nil
+//@   requires result != nil && (reportConfig.IncludeReportCreationTime ==> validationConfig != nil)
 //@   ensures [C08:no-opa] opaRejected == old(opaRejected)
 //@   requires [C11:evaluated] eventChan != nil ==> (chanClosed == 0 && !evOpen && evNext == 6)
 //@   ensures [C11:stages] eventChan != nil ==> (chanClosed == old(chanClosed) && !evOpen && evNext == 7)
 
 //@ func ValidateCompiledWithConfiguration(compiledRegoPtr *rego.PreparedEvalQuery, jsonldText string, debug bool, eventChan *chan e.Event, validationConfig c.ValidationConfiguration, reportConfig c.ReportConfiguration) (string, error)
-//@   requires compiledRegoPtr != nil && validationConfig != nil
+//@   requires compiledRegoPtr != nil && (reportConfig.IncludeReportCreationTime ==> validationConfig != nil)
 //@   requires [C04:not-yet] !ldRejected
 //@   ensures [C04:jsonld-rejected-no-verdict] ldRejected ==> (result1 != nil && result0 == "")
 //@   ensures [C08:no-compile] opaRejected == old(opaRejected)
@@ -83,7 +83,7 @@ package validator
 //@   ensures-assumed [C09:function-of-inputs] compiledRegoPtr != nil ==> (result0 == libCompiledReport(deref(compiledRegoPtr), jsonldText, validationConfig, reportConfig) && result1 == libCompiledReportErr(deref(compiledRegoPtr), jsonldText, validationConfig, reportConfig))
 
 //@ func ValidateWithConfiguration(profileText string, jsonldText string, debug bool, eventChan *chan e.Event, validationConfig c.ValidationConfiguration, reportConfig c.ReportConfiguration) (string, error)
-//@   requires validationConfig != nil
+//@   requires reportConfig.IncludeReportCreationTime ==> validationConfig != nil
 //@   requires [C04:not-yet] !ldRejected
 //@   ensures [C04:jsonld-rejected-no-verdict] ldRejected ==> (result1 != nil && result0 == "")
 //@   requires [C08:not-yet] !opaRejected && !opaEvaluated
@@ -171,7 +171,7 @@ package validator
 //@     invariant [C03] forall k int :: len(violations) + len(warnings) <= k && k < len(violations) + len(warnings) + #i ==> (results[k] == infos[k - len(violations) - len(warnings)] && results[k].(map[string]any)["resultSeverity"] == box(string, "http://www.w3.org/ns/shacl#Info"))
 
 //@ func ValidationReportNode(profileName string, results []any, conforms bool, validationConfig c.ValidationConfiguration, reportConfig c.ReportConfiguration) types.ObjectMap
-//@   requires validationConfig != nil
+//@   requires reportConfig.IncludeReportCreationTime ==> validationConfig != nil
 //@   requires [C03:conforms-iff-no-violation] conforms == (forall k int :: 0 <= k && k < len(results) ==> results[k].(map[string]any)["resultSeverity"] != box(string, "http://www.w3.org/ns/shacl#Violation"))
 //@   requires [C03:every-result-has-a-level-severity] forall k int :: 0 <= k && k < len(results) ==> (results[k].(map[string]any)["resultSeverity"] == box(string, "http://www.w3.org/ns/shacl#Violation") || results[k].(map[string]any)["resultSeverity"] == box(string, "http://www.w3.org/ns/shacl#Warning") || results[k].(map[string]any)["resultSeverity"] == box(string, "http://www.w3.org/ns/shacl#Info"))
 //@   ensures [C03:fresh] ref(result) > old(alloc)
@@ -196,7 +196,7 @@ package validator
 //@   ensures [C03:frame] forall m map[string]any :: ref(m) <= old(alloc) ==> unchanged(m)
 
 //@ func BuildReport(resultPtr *rego.ResultSet, validationConfig c.ValidationConfiguration, reportConfig c.ReportConfiguration) (string, error)
-//@   requires resultPtr != nil && validationConfig != nil
+//@   requires resultPtr != nil && (reportConfig.IncludeReportCreationTime ==> validationConfig != nil)
 //@   verify [C03]
 
 // ---- lexical index (C14) ----------------------------------------------------------------------------------------------
